@@ -730,6 +730,51 @@ def rule_r9(prog, res) -> None:
         raise AnalysisError(f"C02.R9: only {n} sites dividing a chunk among workers found, minimum 2 (MPI scatter and process pool)")
 
 
+def rule_r10(prog, res) -> None:
+    """byte-order conversion keeps the values: ndarray.byteswap() (swaps the bytes in memory) is always paired, in the
+    same expression, with a view whose dtype byte order is flipped RELATIVE to the input (`dtype.newbyteorder()` /
+    newbyteorder('S')).  An absolute target order ('=', '<', '>', 'native', …) keeps the values only for inputs of the
+    opposite order: a column that is already native (unsigned / scaled FITS columns) is garbled"""
+    n = 0
+    for fi in prog.funcs:
+        for c in calls_in(fi):
+            if not (isinstance(c.func, ast.Attribute) and c.func.attr == "byteswap"):
+                continue
+            n += 1
+            res.touch(fi)
+            inplace = kwarg(c, "inplace") or (c.args[0] if c.args else None)
+            # the whole method chain this call is part of
+            pm = parents_map(fi.node)
+            top = c
+            while isinstance(pm.get(id(top)), (ast.Attribute, ast.Call)) and (getattr(pm[id(top)], "value", None) is top or getattr(pm[id(top)], "func", None) is top):
+                top = pm[id(top)]
+            views = [y for y in ast.walk(top) if isinstance(y, ast.Call) and isinstance(y.func, ast.Attribute) and y.func.attr in ("view", "astype") and y.args]
+            orders = [z for v in views for z in ast.walk(v.args[0]) if isinstance(z, ast.Call) and isinstance(z.func, ast.Attribute) and z.func.attr == "newbyteorder"]
+            if not orders:
+                res.violation("C02.R10", fi, c, "byteswap() is applied without re-interpreting the result with the swapped dtype (view(dtype.newbyteorder())): every value of the column changes", key_extra=f"byteswap-no-view-{fi.qualname}")
+                continue
+            bad = None
+            for o in orders:
+                arg = o.args[0] if o.args else kwarg(o, "new_order")
+                if arg is None:
+                    continue
+                if not (isinstance(arg, ast.Constant) and str(arg.value).lower() in ("s", "swap")):
+                    bad = arg
+            if bad is not None:
+                res.violation(
+                    "C02.R10",
+                    fi,
+                    c,
+                    f"byteswap() is combined with newbyteorder({unparse(bad)}), an absolute byte order: the pair keeps the values only if the input has the opposite order; a column that already has this order "
+                    "(unsigned or scaled FITS columns are delivered in native order) is silently garbled",
+                    key_extra=f"byteswap-absolute-order-{fi.qualname}",
+                )
+            else:
+                res.ok("C02.R10", res.site(fi, "byteswap"), "bytes and dtype byte order are swapped together (relative swap): values are preserved for every input order")
+    if n == 0:
+        res.ok("C02.R10", "no byteswap", "no byte-order conversion in the package", nontrivial=False)
+
+
 RULES = [
     ("C02.R1", rule_r1, QUICK),
     ("C02.R2", rule_r2, QUICK),
@@ -740,4 +785,5 @@ RULES = [
     ("C02.R7", rule_r7, QUICK),
     ("C02.R8", rule_r8, QUICK),
     ("C02.R9", rule_r9, QUICK),
+    ("C02.R10", rule_r10, QUICK),
 ]
